@@ -34,6 +34,24 @@ Record seg_model := {
 (* keys of the uncertainty map *)
 Inductive ukey := KAll | KMonth (n : Z) | KText (s : string).    (* KText: a string other than "all" *)
 
+(* one value of an uncertainty entry (mean_baseline_usage, n, n_prime, MSE): an int, a float -- NaN for a calendar
+   month without baseline rows, written as the token NaN and read back as NaN -- or a JSON null kept verbatim
+   (from_dict stores the parsed dictionary as it is; predict's arithmetic raises TypeError on a None) *)
+Inductive uval := UInt (z : Z) | UFloat (f : float) | UNull.
+Definition uentry := list (string * uval).
+
+Definition uval_doc (v : uval) : json := match v with UInt z => JInt z | UFloat f => JNum f | UNull => JNull end.
+Definition uentry_doc (e : uentry) : json := JObj (map (fun kv => (fst kv, uval_doc (snd kv))) e).
+Definition parse_uval (j : json) : option uval :=
+  match j with JInt z => Some (UInt z) | JNum f => Some (UFloat f) | JNull => Some UNull | _ => None end.
+Definition parse_uentry (j : json) : option uentry :=
+  match j with
+  | JObj o => opt_all (map (fun kv => option_map (fun v => (fst kv, v)) (parse_uval (snd kv))) o)
+  | _ => None
+  end.
+(* the ASHRAE-14 expression of predict can be evaluated on the entry (NaN propagates, None raises) *)
+Definition arith_ok (e : uentry) : bool := forallb (fun kv => match snd kv with UNull => false | _ => true end) e.
+
 (* per-segment metrics: ModelMetrics objects (fitted) or ModelMetricsFromJson objects (reloaded) *)
 Inductive metrics := MNone | MNative (l : list (string * json)) | MReloaded (l : list (string * json)).
 
@@ -48,7 +66,7 @@ Record ct_state := {
   ct_occ_bins : string;
   ct_unocc_bins : string;
   ct_segment_type : string;
-  ct_unc : list (ukey * json);
+  ct_unc : list (ukey * uentry);
   ct_warnings : warns;
   ct_metadata : json;
   ct_settings : json;
@@ -137,7 +155,7 @@ Definition ct_to_doc_objects (s : ct_state) : option json :=
        ("occupied_temperature_bins", JStr (ct_occ_bins s));
        ("unoccupied_temperature_bins", JStr (ct_unocc_bins s));
        ("segment_type", JStr (ct_segment_type s));
-       ("unc_vars", JObj (map (fun kv => (ukey_string (fst kv), snd kv)) (ct_unc s)))]);
+       ("unc_vars", JObj (map (fun kv => (ukey_string (fst kv), uentry_doc (snd kv))) (ct_unc s)))]);
     ("warnings", ws);
     ("metadata", ct_metadata s);
     ("settings", ct_settings s);
@@ -202,7 +220,8 @@ Definition ct_from_doc_gen (repaired : bool) (d : json) : option ct_state :=
   do ub <- bind (field "unoccupied_temperature_bins" m) as_string;
   do stype <- bind (field "segment_type" m) as_string;
   do si <- segment_info stype;
-  do unc <- bind (field "unc_vars" m) as_obj;
+  do unc <- bind (bind (field "unc_vars" m) as_obj)
+                 (fun o => opt_all (map (fun kv => option_map (fun e => (fst kv, e)) (parse_uentry (snd kv))) o));
   do ws <- raw_warns (field "warnings" d);
   do md <- field "metadata" d;
   do st <- field "settings" d;
@@ -234,6 +253,19 @@ Definition relax (s : ct_state) : ct_state :=
      ct_totals := relax_metrics (ct_totals s); ct_avgs := relax_metrics (ct_avgs s) |}.
 Definition ct_to_doc (s : ct_state) : option json := ct_to_doc_objects (relax s).
 
+(* regression witness model (seeded change C01-3): a serialiser that writes the non-finite uncertainty statistics as
+   null ("JSON hygiene") *)
+Definition is_finite (f : float) : bool := PrimFloat.eqb f f && PrimFloat.ltb (PrimFloat.abs f) infinity.
+Definition null_nonfinite (e : uentry) : uentry :=
+  map (fun kv => (fst kv, match snd kv with UFloat f => if is_finite f then UFloat f else UNull | v => v end)) e.
+Definition with_unc_map (f : uentry -> uentry) (s : ct_state) : ct_state :=
+  {| ct_status := ct_status s; ct_method := ct_method s; ct_segments := ct_segments s; ct_pred_type := ct_pred_type s;
+     ct_mapping := ct_mapping s; ct_processor := ct_processor s; ct_occupancy := ct_occupancy s;
+     ct_occ_bins := ct_occ_bins s; ct_unocc_bins := ct_unocc_bins s; ct_segment_type := ct_segment_type s;
+     ct_unc := map (fun kv => (fst kv, f (snd kv))) (ct_unc s); ct_warnings := ct_warnings s;
+     ct_metadata := ct_metadata s; ct_settings := ct_settings s; ct_totals := ct_totals s; ct_avgs := ct_avgs s |}.
+Definition ct_to_doc_nan_as_null (s : ct_state) : option json := ct_to_doc (with_unc_map null_nonfinite s).
+
 (* ---------------------------------------------------------------- what predict reads *)
 
 (* the rows of a reporting frame an uncertainty entry applies to: "all" -> every row, an int month -> the rows of
@@ -242,7 +274,7 @@ Definition key_applies (k : ukey) (month : Z) : bool :=
   match k with KAll => true | KMonth n => (n =? month)%Z | KText _ => false end.
 
 (* the entry that ends up written on the rows of a month: the loop visits the items in order, later writes win *)
-Definition unc_lookup (unc : list (ukey * json)) (month : Z) : option json :=
+Definition unc_lookup (unc : list (ukey * uentry)) (month : Z) : option uentry :=
   fold_left (fun acc kv => if key_applies (fst kv) month then Some (snd kv) else acc) unc None.
 
 Record ct_inputs := {
